@@ -71,7 +71,15 @@ def plan(tier, seed):
         dry = rnd.random() < 0.2
         if rnd.random() < 0.6: pl = {"kind": "xml-attr", "name": "xa", "map": {"el": {"k": "NEW", "added": "1"}}}; cm = "vf:python/xa"
         else: pl = {"kind": "xml-new", "name": "xn", "elements": [{"name": "added", "parent": "root", "content": "c", "attributes": {"q": "1"}}]}; cm = "vf:python/xn"
-        jobs.append({"id": f"xml{k}", "kind": pl["kind"], "doc": doc, "dry": dry, "files": {"d.xml": b64(doc.encode())}, "plugins": [pl], "argv": base + ["--codemod-include", cm] + (["--dry-run"] if dry else []), "monitors": {"snap": False}, "want_before": True})
+        # more documents through the same pipeline object, before and after the judged one: documents without a target (left alone), malformed ones (fail), other targets
+        docs = {"d.xml": doc}
+        if k % 2:
+            pad = "".join(f"  <other n=\"{i}\">padding text {i} " + "x" * rnd.randint(0, 60) + "</other>\n" for i in range(rnd.randint(1, 30)))
+            pool_ = [("no-target", f"<?xml version=\"1.0\"?>\n<root>\n{pad}</root>\n" if pl["kind"] == "xml-attr" else f"<?xml version=\"1.0\"?>\n<top>\n{pad}</top>\n"), ("malformed", f"<root>\n{pad}  <el k=\"v\">unclosed\n"),
+                     ("short-target", "<root><el k=\"v\"/></root>\n")]
+            for name in rnd.sample(["a_first.xml", "b_second.xml", "e_after.xml", "z_last.xml"], rnd.randint(1, 3)):
+                docs[name] = rnd.choice(pool_)[1]
+        jobs.append({"id": f"xml{k}", "kind": pl["kind"], "doc": doc, "docs": docs, "dry": dry, "files": {n_: b64(d_.encode()) for n_, d_ in docs.items()}, "plugins": [pl], "argv": base + ["--codemod-include", cm] + (["--dry-run"] if dry else []), "monitors": {"snap": False}, "want_before": True})
     # SAST-driven XML: sibling target elements at the SAME indentation on different lines, findings (exact line and column of '<', or line only) on a subset
     for k in range(30 if tier == "quick" else 400):
         n = rnd.randint(3, 6); indent = "  " * rnd.randint(1, 2)
@@ -144,15 +152,25 @@ def judge(job, res):
                     if not O.same_mod_final_newline(got, "".join(exp)): v.append(Violation("C19", f"{job['kind']}/diff-unfaithful", "diff does not reproduce the edit", dict(w, file=n)))
                 except O.PatchError as ex: v.append(Violation("C19", f"{job['kind']}/diff-unfaithful", str(ex)[:100], dict(w, file=n, text=t, diff=cs["diff"])))
     else:
-        doc = job["doc"]; cs = css.get("d.xml")
-        if cs is None: st["xml_no_change"] += 1; return v, st, nt
-        nt.append(job["id"])
-        if job["dry"]: return v, st, nt
-        after = unb(run["tree"]["d.xml"][2:]).decode("utf-8")
+      for name, doc in sorted((job.get("docs") or {"d.xml": job["doc"]}).items()):
+        cs = css.get(name); multi = "" if len(job.get("docs") or {}) <= 1 else "/several-documents"
+        try: ib = infoset(doc)
+        except Exception:
+            # a document that was not well-formed before the run is out of the pipeline's reach: it must be left exactly as it was
+            st["xml_malformed_inputs"] += 1
+            if unb(run["tree"][name][2:]).decode("utf-8", "replace") != doc: v.append(Violation("C19", "xml/malformed-input-rewritten" + multi, name, dict(w, doc=doc)))
+            if cs is not None: v.append(Violation("C19", "xml/changeset-for-malformed-input" + multi, name, dict(w, doc=doc)))
+            continue
+        if cs is None:
+            st["xml_no_change"] += 1
+            if unb(run["tree"][name][2:]).decode("utf-8", "replace") != doc: v.append(Violation("C19", "xml/changed-without-changeset" + multi, name, dict(w, doc=doc)))
+            continue
+        nt.append((job["id"], name))
+        if job["dry"]: continue
+        after = unb(run["tree"][name][2:]).decode("utf-8", "replace")
         try: ia = infoset(after)
         except Exception as ex:
-            v.append(Violation("C19", "xml/output-not-well-formed", repr(ex)[:100], dict(w, doc=doc, after=after))); return v, st, nt
-        ib = infoset(doc)
+            v.append(Violation("C19", "xml/output-not-well-formed" + multi, repr(ex)[:100], dict(w, file=name, doc=doc, after=after, documents=sorted(job.get("docs") or {})))); continue
         # remove targets from both sides
         def strip(ev):
             out = []
@@ -169,7 +187,7 @@ def judge(job, res):
         if sb != sa:
             kinds = {x[0] for x in set(sb) ^ set(sa)} if True else set()
             diffs = [x for x in sb if x not in sa][:2] + [x for x in sa if x not in sb][:2]
-            key = "xml/doctype-none-ids" if any(d[0] == "doctype" for d in diffs) else ("xml/cdata-escaped" if any(d[0] == "text" and ("&lt;" in d[1] or "&amp;" in d[1]) for d in diffs) else "xml/infoset-differs/" + "+".join(sorted({d[0] for d in diffs})))
+            key = "xml/doctype-none-ids" if any(d[0] == "doctype" for d in diffs) else ("xml/cdata-escaped" if any(d[0] == "text" and ("&lt;" in d[1] or "&amp;" in d[1]) for d in diffs) else "xml/infoset-differs/" + "+".join(sorted({d[0] for d in diffs}))) + multi
             v.append(Violation("C19", key, f"non-target content changed: {diffs}", dict(w, doc=doc, after=after)))
     return v, st, nt
 
